@@ -231,6 +231,12 @@ class Scheduler:
             self._pct_points.pop(0)
             me.prio = -self.rng.random()
 
+    def pct_rearm(self, depth=1, window=2000):
+        """PCT: draw `depth` new priority-change points among the next `window` steps (the initial ones are usually used up by
+        the connection set-up; a workload re-arms them where the phase it is about begins)."""
+        if self.policy == 'pct':
+            self._pct_points = sorted(self.steps + 1 + self.rng.randrange(window) for _ in range(depth))
+
     def point(self, force=False):
         """Non-blocking scheduling point."""
         me = self.me()
